@@ -14,6 +14,8 @@ reviewed classification table; it is never rewritten by bin/check.)
 namespace Rangers.Props.C01Sites
 open Rangers.Generated.NondetSites
 
+set_option maxRecDepth 20000
+
 /-- sites that are a fold over an explicit iteration order in `Model/BlockExec.lean`, with an order-irrelevance theorem in `Props/C01.lean` -/
 def modelled : List Nat := [
   1214644477106985,  -- maprange src/service/game.go ChangeAssets [targets] — keys collected, then sort.Strings (fix:) — changeAssets_order_irrelevant
@@ -113,13 +115,105 @@ def flagsInUninterpreted : List Nat := [
   4235225489193412  -- flag src/vm/gas_table.go memoryGasCost [IsProposal026] — inside Env.other (EVM / contract executor): part of the uninterpreted deterministic step, which therefore also depends on the process height
 ]
 
-def accounted : List Nat := modelled ++ provedIrrelevant ++ outOfPath ++ flagsModelled ++ flagsHeldFixed ++ flagsInUninterpreted
+/-- process-local state touched by functions reachable from VMExecutor.Execute (run-time-assigned package variables, side stores in struct fields of core/service/executor/middleware types, context entries), each with the reason it cannot make two replicas differ — or the recorded finding it belongs to -/
+def processLocalAccounted : List Nat := [
+  1586386065276082,  -- global src/common/constant_economy.go GetBlocksPerEpoch [common.epochBlocks] — memoised constant
+  3959112389092664,  -- global src/common/constant_economy.go GetCastingInterval [common.Genesis] — sub-chain configuration read once from genesis.json at start-up; nil on the main chain
+  1146294235989518,  -- global src/common/constant_economy.go GetRefundBlocks [common.refundBlocks] — memoised constant
+  3836124506624883,  -- global src/common/constant_economy.go GetRewardBlocks [common.rewardBlocks] — memoised constant rewardTime / castingInterval
+  2931297799957989,  -- global src/common/height.go GetBlockHeight [common.localChainInfo] — process-wide chain height behind every IsProposalNNN: the recorded known finding (Props/C01B)
+  3209629353064584,  -- global src/common/version.go ChainId [common.LocalChainConfig] — fork table / chain config fixed at start-up; together with localChainInfo it yields the flags (known finding flags-from-process-chain-height)
+  4151770717763579,  -- global src/common/version.go GetChainId [common.Genesis] — sub-chain configuration read once from genesis.json at start-up; nil on the main chain
+  1647692153788362,  -- global src/common/version.go IsMainnet [common.LocalChainConfig] — fork table / chain config fixed at start-up; together with localChainInfo it yields the flags (known finding flags-from-process-chain-height)
+  695522378607906,  -- global src/common/version.go IsProposal001 [common.LocalChainConfig] — fork table / chain config fixed at start-up; together with localChainInfo it yields the flags (known finding flags-from-process-chain-height)
+  858553951947752,  -- global src/common/version.go IsProposal002 [common.LocalChainConfig] — fork table / chain config fixed at start-up; together with localChainInfo it yields the flags (known finding flags-from-process-chain-height)
+  105525629532085,  -- global src/common/version.go IsProposal003 [common.LocalChainConfig] — fork table / chain config fixed at start-up; together with localChainInfo it yields the flags (known finding flags-from-process-chain-height)
+  1181987941491911,  -- global src/common/version.go IsProposal004 [common.LocalChainConfig] — fork table / chain config fixed at start-up; together with localChainInfo it yields the flags (known finding flags-from-process-chain-height)
+  904980413132327,  -- global src/common/version.go IsProposal005 [common.LocalChainConfig] — fork table / chain config fixed at start-up; together with localChainInfo it yields the flags (known finding flags-from-process-chain-height)
+  3108002567582069,  -- global src/common/version.go IsProposal006 [common.LocalChainConfig] — fork table / chain config fixed at start-up; together with localChainInfo it yields the flags (known finding flags-from-process-chain-height)
+  1089400300737822,  -- global src/common/version.go IsProposal007 [common.LocalChainConfig] — fork table / chain config fixed at start-up; together with localChainInfo it yields the flags (known finding flags-from-process-chain-height)
+  3145353939429149,  -- global src/common/version.go IsProposal012 [common.LocalChainConfig] — fork table / chain config fixed at start-up; together with localChainInfo it yields the flags (known finding flags-from-process-chain-height)
+  3889775006746044,  -- global src/common/version.go IsProposal013 [common.LocalChainConfig] — fork table / chain config fixed at start-up; together with localChainInfo it yields the flags (known finding flags-from-process-chain-height)
+  544248671081930,  -- global src/common/version.go IsProposal015 [common.LocalChainConfig] — fork table / chain config fixed at start-up; together with localChainInfo it yields the flags (known finding flags-from-process-chain-height)
+  4249309163164585,  -- global src/common/version.go IsProposal017 [common.LocalChainConfig] — fork table / chain config fixed at start-up; together with localChainInfo it yields the flags (known finding flags-from-process-chain-height)
+  1138679154885458,  -- global src/common/version.go IsProposal018 [common.LocalChainConfig] — fork table / chain config fixed at start-up; together with localChainInfo it yields the flags (known finding flags-from-process-chain-height)
+  886646486206285,  -- global src/common/version.go IsProposal021 [common.LocalChainConfig] — fork table / chain config fixed at start-up; together with localChainInfo it yields the flags (known finding flags-from-process-chain-height)
+  4267182550193073,  -- global src/common/version.go IsProposal026 [common.LocalChainConfig] — fork table / chain config fixed at start-up; together with localChainInfo it yields the flags (known finding flags-from-process-chain-height)
+  581895781666497,  -- global src/common/version.go IsProposal027 [common.LocalChainConfig] — fork table / chain config fixed at start-up; together with localChainInfo it yields the flags (known finding flags-from-process-chain-height)
+  1020331752086191,  -- global src/common/version.go IsSub [common.Genesis] — sub-chain configuration read once from genesis.json at start-up; nil on the main chain
+  2735802628458516,  -- global src/common/version.go MainNodeContract [common.LocalChainConfig] — fork table / chain config fixed at start-up; together with localChainInfo it yields the flags (known finding flags-from-process-chain-height)
+  3509427703353898,  -- store src/core/blockchain.go blockChain.QueryBlockHeaderByHeight [chain.heightDB.Get [db.Database]] — QueryBlockHeaderByHeight in calcDifficulty second part: header of an ancestor block (chain history, not modelled part)
+  1339141148764422,  -- store src/core/blockchain.go blockChain.QueryBlockHeaderByHeight [chain.topBlocks.Get [lru.Cache]] — idem (LRU in front of heightDB)
+  840308082172872,  -- store src/core/fork_block.go blockChainFork.getBlock [fork.db.Get [db.Database]] — fork-path lookup of ancestor blocks / groups: same replicated data through the fork store
+  555558504157632,  -- store src/core/fork_group.go groupChainFork.getGroupById [fork.db.Get [db.Database]] — fork-path lookup of ancestor blocks / groups: same replicated data through the fork store
+  3790870022054829,  -- global src/core/groupchain.go GroupIterator.MovePre [core.groupChainImpl] — group lookup for the reward: replicated group-chain data (model input RewardCfg.group)
+  3931571774650457,  -- global src/core/groupchain.go groupChain.ForkIterator [core.SyncProcessor] — fork-path chain helper (same data, other handle)
+  3051595373328901,  -- store src/core/groupchain.go groupChain.getGroupByHeight [chain.groups.Get [db.Database]] — group chain lookup for the reward (RewardCfg.group)
+  1547127731335756,  -- store src/core/groupchain.go groupChain.getGroupById [chain.groups.Get [db.Database]] — group chain lookup for the reward (RewardCfg.group)
+  663652526811403,  -- global src/core/sync_helper.go GroupForkIterator.MovePre [core.SyncProcessor] — fork-path chain helper (same data, other handle)
+  2784864557967805,  -- global src/core/sync_helper.go GroupForkIterator.MovePre [core.groupChainImpl] — group lookup for the reward: replicated group-chain data (model input RewardCfg.group)
+  804587230785933,  -- ctx src/core/vmexecutor.go VMExecutor.Execute [delete contractAddress] — idem
+  571519956649298,  -- ctx src/core/vmexecutor.go VMExecutor.Execute [delete logs] — idem
+  311953710960808,  -- ctx src/core/vmexecutor.go VMExecutor.Execute [read contractAddress] — deleted after use
+  439081352695986,  -- ctx src/core/vmexecutor.go VMExecutor.Execute [read gasUsed] — never deleted: a later transaction of the SAME block sees the previous value (deterministic: the context map is new per execution; part of OpaqueOut.extra)
+  439081621131443,  -- ctx src/core/vmexecutor.go VMExecutor.Execute [read gasUsed] — never deleted: a later transaction of the SAME block sees the previous value (deterministic: the context map is new per execution; part of OpaqueOut.extra)
+  1591660604209917,  -- ctx src/core/vmexecutor.go VMExecutor.Execute [read logs] — pre-Proposal013 receipts; deleted after every transaction
+  1591660335774461,  -- ctx src/core/vmexecutor.go VMExecutor.Execute [read logs] — pre-Proposal013 receipts; deleted after every transaction
+  268146971126033,  -- global src/core/vmexecutor.go VMExecutor.Execute [common.LocalChainConfig] — fork table / chain config fixed at start-up; together with localChainInfo it yields the flags (known finding flags-from-process-chain-height)
+  35461906675605,  -- global src/core/vmexecutor.go VMExecutor.after [common.LocalChainConfig] — fork table / chain config fixed at start-up; together with localChainInfo it yields the flags (known finding flags-from-process-chain-height)
+  3188132833106357,  -- global src/core/vmexecutor.go VMExecutor.after [service.RefundManagerImpl] — singleton handle; holds chain helpers only
+  3193999342649376,  -- global src/core/vmexecutor.go VMExecutor.after [service.RewardCalculatorImpl] — singleton handle; holds chain helpers only
+  793470408142866,  -- global src/core/vmexecutor.go VMExecutor.calcDifficulty [common.LocalChainConfig] — fork table / chain config fixed at start-up; together with localChainInfo it yields the flags (known finding flags-from-process-chain-height)
+  2168668332877904,  -- global src/core/vmexecutor.go VMExecutor.calcDifficulty [core.blockChainImpl] — context["chain"] (BLOCKHASH) and calcDifficulty second part: chain data below the block = part of the parent history, not modelled
+  3083301722862101,  -- ctx src/core/vmexecutor.go VMExecutor.prepare [write refund] — prepare(): context["refund"] reset at the start of every execution (Loop.refunds starts empty)
+  1838929760992338,  -- global src/core/vmexecutor.go removeUnusedValidator [service.MinerManagerImpl] — singleton handle assigned at start-up; its mutable side store is listed as store sites (pkCache)
+  3345912616700556,  -- global src/core/vmexecutor.go removeUnusedValidator1 [service.MinerManagerImpl] — singleton handle assigned at start-up; its mutable side store is listed as store sites (pkCache)
+  4384574610358504,  -- global src/core/vmexecutor_sub.go VMExecutor.calcSubReward [core.SyncProcessor] — fork-path chain helper (same data, other handle)
+  351071048086676,  -- global src/core/vmexecutor_sub.go VMExecutor.calcSubReward [core.groupChainImpl] — group lookup for the reward: replicated group-chain data (model input RewardCfg.group)
+  4169917642551588,  -- global src/core/vmexecutor_sub.go VMExecutor.calcSubReward [service.MinerManagerImpl] — singleton handle assigned at start-up; its mutable side store is listed as store sites (pkCache)
+  103517113165635,  -- ctx src/executor/contract_executor.go contractExecutor.BeforeExecute [write contractData] — BeforeExecute of the same transaction
+  1239331964152800,  -- ctx src/executor/contract_executor.go contractExecutor.Execute [read chain] — set by newVMExecutor
+  1496130770102911,  -- ctx src/executor/contract_executor.go contractExecutor.Execute [read contractData] — written by BeforeExecute of the same transaction
+  558653414380971,  -- ctx src/executor/contract_executor.go contractExecutor.Execute [write contractAddress] — executor output
+  2765036081659078,  -- ctx src/executor/contract_executor.go contractExecutor.Execute [write gasUsed] — executor output
+  3703183435874273,  -- ctx src/executor/contract_executor.go contractExecutor.Execute [write logs] — executor output of this transaction
+  3026413669229130,  -- ctx src/executor/jsonrpc_executor.go jsonrpcExecutor.BeforeExecute [write contractData] — BeforeExecute of the same transaction
+  3524014543335158,  -- global src/executor/miner_executor.go minerAddExecutor.Execute [service.MinerManagerImpl] — singleton handle assigned at start-up; its mutable side store is listed as store sites (pkCache)
+  2950453199794815,  -- global src/executor/miner_executor.go minerApplyExecutor.Execute [service.MinerManagerImpl] — singleton handle assigned at start-up; its mutable side store is listed as store sites (pkCache)
+  3790123787520443,  -- global src/executor/miner_executor.go minerChangeAccountExecutor.Execute [service.MinerManagerImpl] — singleton handle assigned at start-up; its mutable side store is listed as store sites (pkCache)
+  538961933330636,  -- ctx src/executor/miner_executor.go minerRefundExecutor.Execute [read situation] — set by newVMExecutor; only selects which group helper answers
+  1785094154492522,  -- global src/executor/miner_executor.go minerRefundExecutor.Execute [service.RefundManagerImpl] — singleton handle; holds chain helpers only
+  1489649670282627,  -- ctx src/executor/miner_node_executor.go minerNodeExecutor.Execute [write logs] — executor output of this transaction
+  748598297064738,  -- global src/executor/miner_node_executor.go minerNodeExecutor.Execute [service.MinerManagerImpl] — singleton handle assigned at start-up; its mutable side store is listed as store sites (pkCache)
+  4262637398453481,  -- global src/executor/tx_executor.go GetTxExecutor [executor.txExecutorsImpl] — static executor registry built by InitExecutors
+  4438383272148860,  -- store src/executor/tx_executor.go GetTxExecutor [txExecutorsImpl.executors[] [map]] — static executor registry
+  3569149086770667,  -- ctx src/middleware/types/refund.go GetRefundInfo [read refund] — set by prepare() in this execution
+  3147397168732421,  -- store src/service/miner_manager.go MinerManager.AddMiner [mm.pkCache.Put [db.LDBDatabase]] — write-only on the execution path: no function reachable from Execute reads pkCache (a read would be a new store site)
+  2868100070939455,  -- global src/service/miner_manager.go MinerManager.GetMiner [service.MinerManagerImpl] — singleton handle assigned at start-up; its mutable side store is listed as store sites (pkCache)
+  424992939623107,  -- global src/service/miner_manager.go MinerManager.GetMinerById [middleware.AccountDBManagerInstance] — reached only through nil-accountdb fall-backs (GetLatestStateDB) that the executor never takes: it always passes its AccountDB
+  913689094792706,  -- global src/service/miner_manager.go MinerManager.minerIterator [middleware.AccountDBManagerInstance] — reached only through nil-accountdb fall-backs (GetLatestStateDB) that the executor never takes: it always passes its AccountDB
+  2915113451559121,  -- global src/service/refund_manager.go RefundManager.GetRefundStake [service.MinerManagerImpl] — singleton handle assigned at start-up; its mutable side store is listed as store sites (pkCache)
+  2600552664367281,  -- global src/service/refund_manager.go RefundManager.getRefundHeight [common.LocalChainConfig] — fork table / chain config fixed at start-up; together with localChainInfo it yields the flags (known finding flags-from-process-chain-height)
+  3744152152431079,  -- global src/service/refund_manager.go RefundManager.getRefundHeight [service.RewardCalculatorImpl] — singleton handle; holds chain helpers only
+  4263638341011424,  -- global src/service/reward_calculator.go RewardCalculator.calculateRewardPerBlock [service.MinerManagerImpl] — singleton handle assigned at start-up; its mutable side store is listed as store sites (pkCache)
+  1821241674178939,  -- global src/service/transaction_pool.go GetTransactionPool [service.txpoolInstance] — singleton handle; ProcessFee touches only the AccountDB passed in
+  4382738886316098,  -- global src/storage/account/accountdb_eth.go AccountDB.GetERC20Binding [account.rpgContractAddress] — cache of the RPG ERC20 binding, a genesis-time constant of the state (AddERC20Binding is only called by genesis); re-read while zero
+  1544806820199954,  -- global src/storage/account/accountdb_eth.go AccountDB.loadContractCache [account.rpgContractAddress] — cache of the RPG ERC20 binding, a genesis-time constant of the state (AddERC20Binding is only called by genesis); re-read while zero
+  2182657831887046  -- global src/vm/interpreter.go NewEVMInterpreter [common.LocalChainConfig] — fork table / chain config fixed at start-up; together with localChainInfo it yields the flags (known finding flags-from-process-chain-height)
+]
 
-theorem sites_accounted : ∀ k ∈ siteKeys, k ∈ accounted := by
+def accounted : List Nat := modelled ++ provedIrrelevant ++ outOfPath ++ flagsModelled ++ flagsHeldFixed ++ flagsInUninterpreted ++ processLocalAccounted
+
+theorem sites_accounted_bool : siteKeys.all (fun k => accounted.contains k) = true := by
   decide
 
+theorem sites_accounted : ∀ k ∈ siteKeys, k ∈ accounted := by
+  intro k hk
+  have := List.all_eq_true.mp sites_accounted_bool k hk
+  simpa using this
+
 /-- the sites the model folds over still exist in the source (a vanished site means a stale model) -/
-theorem modelled_sites_exist : ∀ k ∈ modelled ++ flagsModelled, k ∈ siteKeys := by
+theorem modelled_sites_exist : (modelled ++ flagsModelled).all (fun k => siteKeys.contains k) = true := by
   decide
 
 /-- the generated key list is the key column of the generated table -/
@@ -132,6 +226,13 @@ theorem flag_reads_pinned :
       (fun k => (flagsModelled ++ flagsHeldFixed ++ flagsInUninterpreted ++ outOfPath).contains k) = true := by
   decide
 
+/-- every process-local state access found on the execution path is one of the classified ones -/
+theorem process_local_reads_pinned :
+    ((sites.filter (fun s => s.kind == "global" || s.kind == "store" || s.kind == "ctx")).map (·.key)).all
+      (fun k => processLocalAccounted.contains k) = true := by
+  decide
+
+example : processLocalAccounted ≠ [] := by decide
 example : siteKeys ≠ [] := by decide
 example : flagsModelled ≠ [] := by decide
 
